@@ -24,6 +24,11 @@ CHECKS = {
   technique="runtime monitoring: debugger snapshot monitor (interpreter.Debugger hook) reading every header spelling and sub-field before each statement + offline store-law checker over the recorded snapshots",
   text="Operation sequences (set, +=, add, unset, name:key set/unset, wildcard unset) over mixed-case names, sub-field keys and hostile values are executed as VCL by the real interpreter in all 17 (object, scope) pairs where the object is writable; snapshots taken through the interpreter's own read path before every statement are checked against read-after-write, not-set-after-unset, case-insensitivity (value and set/not-set flag), sub-field read-back and the frame rule for sibling sub-fields, other headers and the other object. All sequences of length <=3 over a reduced 44-operation alphabet are enumerated for req/RECV (length <=2 elsewhere); longer ones are PRNG.",
   note="Trusts the sim package (drives the interpreter as `falco test` does) and the law set as stated in the property; add/+=/wildcard are held only to the weak laws the property states."),
+ "C20": dict(
+  category="exploration", design_ref="DESIGN.md §4 C20",
+  technique="runtime monitoring: generated resource sets pushed through the real Terraform-plan and API fetch paths and the CLI; every generated item re-parsed by falco's parser and compared field by field with the source data (reference-model monitor)",
+  text="Resource sets (dictionaries, ACLs, backends, directors, header rules, response objects, snippets, conditions) with hostile values are turned into a Terraform plan JSON and run through terraform.ParseStdin -> TerraformFetcher -> snippet.Fetch -> EmbedSnippets, through a fake API fetcher, and through the `falco terraform` binary; each generated declaration must parse and carry exactly the keys, values, addresses, masks, negations, identifiers and members of its resource.",
+  note="Trusts the harness's statement of what Fastly accepts as names (identifier characters; '-', '.', space for backends/directors; no VCL keywords) and falco's own parser as the reader of the generated text."),
 }
 
 NOT_APPLICABLE = {}
